@@ -133,7 +133,9 @@ def judgeSnapshot (st : ByteLog.State) (snap : String) : Option String :=
       match st o with
       | none => some s!"o{o} should not be alive"
       | some bs =>
-        if wh.startsWith "A" || wh.startsWith "Z" then some s!"o{o}: raw_buffer() points into another stream"
+        if bytes == "!dangling" then some s!"o{o}: raw_buffer() is not a live heap block (released or foreign storage)"
+        else if bytes == "!oversize" then some s!"o{o}: size() = {sz} exceeds the storage raw_buffer() points to"
+        else if wh.startsWith "A" || wh.startsWith "Z" then some s!"o{o}: raw_buffer() points into another stream"
         else if sz.toNat? != some bs.length then some s!"o{o}: size() is {sz}, the bytes appended so far are {bs.length}"
         else if bytes != repr bs then some s!"o{o}: raw_buffer()[0,size()) differs from the bytes appended so far"
         else none
